@@ -15,7 +15,9 @@
    queue running dry at n_avail packets, the j-th has_specification() call
    advancing the clock by ds_j >= 0 and answering answers_j.                  *)
 From Coq Require Import ZArith List Bool.
-From CSS Require Import Searcher.Slicing.
+From CSS Require Import Base.PyList ClassDB.Model Searcher.Model Searcher.Inv Searcher.Slicing Searcher.Step
+  Searcher.StepProofs Searcher.Cache Searcher.Pickle.
+From CSS Require Queue.Model.
 Import ListNotations.
 Open Scope Z_scope.
 
@@ -60,6 +62,198 @@ Theorem C17_exceeded_only_past_limit :
 Proof.
   intros n_avail mult maxt fuel k extra ds answers kf calls extra' H. unfold auto_search in H.
   exact (exceeded_really n_avail mult maxt fuel k extra (k + extra) 0 ds answers [] kf calls extra' H).
+Qed.
+
+
+(* ======================================================================
+   The state transformation (Searcher/Step.v): the searcher as a packet-level
+   state machine built from the C04 model (expansion of one packet), the C16
+   model (the queue) and the C15 model (the class database).
+
+     step : sstate -> sstate * sevent     one next(queue) + is_verified gate + _expand
+     iterate n s                          n turns, with their events
+     run_calls_st mult s k extra calls    any script of successive auto_search calls
+         (per call: max_expansion_time, clock advances and answers of has_specification)
+         transcribed from _auto_search_rules / _expand_classes_for with the local
+         last_label cache and the clock of Slicing.v
+   Quantified over: every strategy table T, database mode, model fuel F,
+   expand_verified, pack (inferral / initial / expansion strategy ids), perc
+   (mult), script of calls, and every state s whose core satisfies the C04
+   invariant `Inv T False` (every state reachable from __init__ does:
+   C17_reachable).  The answers of ruledb.is_verified are part of s (an
+   environment stream), those of has_specification part of the script: the
+   theorems hold GIVEN the same answers, as they must (for the pruning
+   databases has_specification() marks labels verified).
+   ====================================================================== *)
+Section StateMachine.
+Variable T : table.
+Variable mode : Z.
+Variable F : nat.
+Variable expand_verified : bool.
+Variables inferral_strategies initial_strategies : list Z.
+Variable expansion_strats : list (list Z).
+
+Notation step := (step T mode F expand_verified inferral_strategies initial_strategies expansion_strats).
+Notation iterate := (iterate T mode F expand_verified inferral_strategies initial_strategies expansion_strats).
+Notation run_calls_st := (run_calls_st T mode F expand_verified inferral_strategies initial_strategies expansion_strats).
+Notation init_sstate := (init_sstate T mode F inferral_strategies initial_strategies expansion_strats).
+Notation process := (process T mode F expand_verified).
+Notation qnext := (Queue.Model.next inferral_strategies initial_strategies expansion_strats).
+Notation q_apply := (q_apply inferral_strategies initial_strategies).
+Notation Inv := (Inv T False).
+
+(* the searcher after __init__, and after any number of packets, satisfies the invariant *)
+Theorem C17_reachable : forall ans start n,
+  Inv (core (fst (init_sstate ans start))) /\
+  Inv (core (fst (iterate n (fst (init_sstate ans start))))).
+Proof.
+  intros ans start n. split; [apply init_sstate_inv|].
+  destruct (iterate n (fst (init_sstate ans start))) as [s' es] eqn:E.
+  eapply iterate_inv; [apply init_sstate_inv|exact E].
+Qed.
+
+(* (a) whatever the clock script, the time limits, perc and the answers of
+   has_specification are, and whatever each call returns or raises, the state
+   after the calls is `iterate step n` of the state before, n = the number of
+   next(queue) calls made (= length of the event list), and the events of the
+   calls, concatenated, are the events of that uninterrupted iteration *)
+Theorem C17_slicing_independent : forall mult calls s k extra outs s' es k' extra',
+  Inv (core s) ->
+  run_calls_st mult s k extra calls = (outs, s', es, k', extra') ->
+  iterate (length es) s = (s', es).
+Proof. intros mult calls s k extra outs s' es k' extra'. apply run_calls_iterate. Qed.
+
+(* ... and n is the number of packets processed plus the turns that found the queue dry
+   (or the search dead): the packet counter k of the clock advances by exactly the number of
+   packets among the events (the fuel of a call is only exhausted by a script with fewer
+   has_specification answers than calls made; the harness never sends one) ... *)
+Theorem C17_packet_count : forall mult calls s k extra outs s' es k' extra',
+  Inv (core s) ->
+  run_calls_st mult s k extra calls = (outs, s', es, k', extra') ->
+  Forall (fun o => fst (fst o) <> Ret OutOfFuel) outs ->
+  k' = k + Z.of_nat (length (filter is_packet es)).
+Proof. intros mult calls s k extra outs s' es k' extra'. apply run_calls_count. Qed.
+
+(* ... and a turn that finds the queue dry only settles the queue's own bookkeeping once:
+   from then on every turn finds it dry and changes nothing *)
+Theorem C17_dry_is_stable : forall s s1, step s = (s1, SDry) -> step s1 = (s1, SDry).
+Proof. intros s s1. apply dry_is_stable. Qed.
+
+(* SpecificationNotFound (of the state machine's auto_search) is raised only right after a
+   next(queue) that found the queue dry: the state-level counterpart of
+   C17_notfound_only_when_exhausted *)
+Theorem C17_notfound_means_dry : forall mult maxt fuel s k extra ds hs kf calls' extra' s' es,
+  auto_search_st T mode F expand_verified inferral_strategies initial_strategies expansion_strats
+    mult maxt fuel s k extra ds hs = (Ret (NotFound kf), calls', extra', s', es) ->
+  exists pre, es = pre ++ [SDry].
+Proof.
+  intros mult maxt fuel s k extra ds hs kf calls' extra' s' es H. unfold auto_search_st in H.
+  eapply auto_st_notfound; eauto.
+Qed.
+
+(* ... in particular an interruption never falls inside a packet: at every point i of the
+   sliced run, if the queue hands out a packet there, the i-th event IS that packet
+   together with its complete processing, the next state has the queue calls of that
+   processing applied, and nothing else happens in between *)
+Theorem C17_no_packet_lost : forall mult calls s k extra outs s' es k' extra',
+  Inv (core s) ->
+  run_calls_st mult s k extra calls = (outs, s', es, k', extra') ->
+  forall i si esi qp q1, (i < length es)%nat -> iterate i s = (si, esi) ->
+    running (core si) = true -> qnext (que si) = (Queue.Model.RPacket qp, q1) ->
+    let p := to_packet qp in
+    let '(c1, _, evs) := process (core si) None p in
+    nth i es SDead = SPacket p evs /\
+    fst (iterate (S i) s) = mkSS c1 (fold_left q_apply evs q1).
+Proof.
+  intros mult calls s k extra outs s' es k' extra'. apply no_packet_lost.
+Qed.
+
+(* the queue never fails: a turn hands out a packet or finds the queue dry *)
+Theorem C17_queue_total : forall q,
+  match fst (qnext q) with Queue.Model.RPacket _ | Queue.Model.RStop => True | _ => False end.
+Proof. apply qnext_total. Qed.
+
+(* resumption composes *)
+Theorem C17_resume_composes : forall k1 k2 s,
+  iterate (k1 + k2) s =
+  let '(s1, e1) := iterate k1 s in let '(s2, e2) := iterate k2 s1 in (s2, e1 ++ e2).
+Proof. intros k1 k2 s. apply iterate_add. Qed.
+
+(* ... also at the level of calls: a script split anywhere *)
+Theorem C17_calls_compose : forall mult cs1 cs2 s k extra,
+  run_calls_st mult s k extra (cs1 ++ cs2) =
+  let '(o1, s1, e1, k1, x1) := run_calls_st mult s k extra cs1 in
+  let '(o2, s2, e2, k2, x2) := run_calls_st mult s1 k1 x1 cs2 in (o1 ++ o2, s2, e1 ++ e2, k2, x2).
+Proof. intros mult cs1 cs2 s k extra. apply run_calls_app. Qed.
+
+(* (b) step reads and writes only the members (class database, queue, the rule stores
+   and _already_empty of the rule database, tried_to_verify, symmetry_expanded,
+   inferral_expanded) and the environment (pending is_verified answers, alive/dead):
+   it gives the same result on any two states with the same members, and its result
+   is nothing but members.  True BY CONSTRUCTION of `step` (it starts and ends with
+   `norm`); what makes it meaningful is the correspondence: the real searcher, stopped
+   and restarted or pickled at any packet, produces the events of `iterate step`. *)
+Theorem C17_state_is_members : forall s,
+  step s = step (of_members (members_of s)) /\
+  (forall s' e, step s = (s', e) -> of_members (members_of s') = s').
+Proof.
+  intros s. split; [apply step_members|].
+  intros s' e H. eapply step_normal; eauto.
+Qed.
+
+(* pickling at the level of the members (Searcher/Pickle.v): dump writes the members
+   into a graph with the sharing of the real object graph, load reads them back *)
+Theorem C17_pickle_roundtrip : forall s,
+  well_shared (dump s) /\ load (dump s) = of_members (members_of s) /\ (normal s -> load (dump s) = s).
+Proof.
+  intros s. split; [apply dump_well_shared|]. split; [apply load_dump_members|apply load_dump].
+Qed.
+
+(* step commutes with pickling: for every state, and at every point of a run *)
+Theorem C17_pickle_commutes : forall s k n,
+  step (load (dump s)) = step s /\
+  let '(sk, ek) := iterate k s in
+  let '(sn, en) := iterate n (load (dump sk)) in
+  (k = O \/ load (dump sk) = sk) /\ (n = O \/ iterate (k + n) s = (sn, ek ++ en)).
+Proof.
+  intros s k n. split; [apply step_load_dump|apply pickle_anywhere].
+Qed.
+
+End StateMachine.
+
+(* (c) the derived cache of RuleDBBase (Searcher/Cache.v): for every rule store type R,
+   observed equivalence database E, dictionary type D, every `recompute` (the body of the
+   property pruned_dict) that is idempotent, two histories of add / has_specification /
+   is_verified that differ only in where the cache was thrown away, run from databases
+   that differ only in whether the cache is present, answer the same and end in databases
+   that differ at most in the cache *)
+Theorem C17_cache_transparent :
+  forall (R E D K : Type) (r_add : R -> K -> R) (e_add : E -> K -> E) (recompute : R -> E -> D * E)
+         (root_in : E -> D -> bool) (e_isv : E -> Z -> bool),
+  (forall r e d e', recompute r e = (d, e') -> recompute r e' = (d, e')) ->
+  forall ops1 ops2 x y,
+  same R E D recompute x y ->
+  filter (fun o => negb (is_drop K o)) ops1 = filter (fun o => negb (is_drop K o)) ops2 ->
+  snd (exec R E D K r_add e_add recompute root_in e_isv x ops1) =
+  snd (exec R E D K r_add e_add recompute root_in e_isv y ops2) /\
+  same R E D recompute (fst (exec R E D K r_add e_add recompute root_in e_isv x ops1))
+                       (fst (exec R E D K r_add e_add recompute root_in e_isv y ops2)).
+Proof.
+  intros R E D K r_add e_add recompute root_in e_isv Hidem. apply cache_transparent. exact Hidem.
+Qed.
+
+(* the hypothesis `same` is met by a database and its copy without the cache, at every
+   point of every history that starts from an empty cache *)
+Theorem C17_cache_invariant :
+  forall (R E D K : Type) (r_add : R -> K -> R) (e_add : E -> K -> E) (recompute : R -> E -> D * E)
+         (root_in : E -> D -> bool) (e_isv : E -> Z -> bool),
+  (forall r e d e', recompute r e = (d, e') -> recompute r e' = (d, e')) ->
+  forall ops r e,
+  let x := fst (exec R E D K r_add e_add recompute root_in e_isv (mkDB R E D r e None) ops) in
+  same R E D recompute x (drop R E D x).
+Proof.
+  intros R E D K r_add e_add recompute root_in e_isv Hidem ops r e x.
+  apply same_drop. apply cache_ok_exec; [exact Hidem|exact I].
 Qed.
 
 Example C17_nonvacuous :
@@ -134,7 +328,42 @@ Example C17_exceeded_near_miss :
   fst (fst (auto_search 40 2 None 3 0 0 [2; 1; 3] [false; false; false])) = OutOfFuel /\
   auto_search 40 2 (Some 9) 3 0 0 [2; 1; 3] [false; false; false] = (Exceeded 9, [1; 6; 9], 6).
 Proof. split; [|split]; vm_compute; reflexivity. Qed.
+(* a table with an inferral strategy, an expansion strategy, a verification strategy: the
+   machine run under a clock with an interruption equals the uninterrupted iteration, and
+   hands out real packets *)
+Definition ex17_table : table :=
+  mkT [0; 0; 0; 0]
+      [ mkS 2 false false false false [(3, mkE [] false false [])] [];
+        mkS 0 false true false true [(0, mkE [1; 2] false true [0; 1]); (1, mkE [3] false true [1]);
+                                      (2, mkE [1; 3] false true [1; 0])] [];
+        mkS 0 false true false true [(0, mkE [2] true true [0])] [] ]
+      [0] [].
+
+Example C17_nonvacuous_machine :
+  let run := run_calls_st ex17_table 0 20 false [2] [] [[1]] 2 in
+  let s0 := fst (init_sstate ex17_table 0 20 [2] [] [[1]] (repeat false 40) 0) in
+  let '(outs, s', es, k', x') :=
+    run s0 0 0 [(Some 1, [2; 1], [false; false]); (None, repeat 0 7, repeat false 7)] in
+  map (fun o => fst (fst o)) outs = [Ret (Exceeded 1); Ret (NotFound 7)] /\
+  map is_packet es = [true; true; true; true; true; true; true; false] /\
+  iterate ex17_table 0 20 false [2] [] [[1]] (length es) s0 = (s', es) /\
+  classes (cdb (core s')) = [0; 2; 1; 3] /\ stat (core s') = Running.
+Proof. vm_compute. repeat split; reflexivity. Qed.
 
 Print Assumptions C17_resume_from.
 Print Assumptions C17_notfound_only_when_exhausted.
 Print Assumptions C17_exceeded_only_past_limit.
+Print Assumptions C17_reachable.
+Print Assumptions C17_slicing_independent.
+Print Assumptions C17_packet_count.
+Print Assumptions C17_dry_is_stable.
+Print Assumptions C17_notfound_means_dry.
+Print Assumptions C17_no_packet_lost.
+Print Assumptions C17_queue_total.
+Print Assumptions C17_resume_composes.
+Print Assumptions C17_calls_compose.
+Print Assumptions C17_state_is_members.
+Print Assumptions C17_pickle_roundtrip.
+Print Assumptions C17_pickle_commutes.
+Print Assumptions C17_cache_transparent.
+Print Assumptions C17_cache_invariant.
